@@ -113,7 +113,7 @@ func scribble(piece *boc.BitString) {
 	piece.WriteBit(true)
 }
 
-var seqCheck = &core.Check{Name: "c06/sequence", Quick: 40000, Thorough: 4000000, Fn: func(c *core.Ctx) error {
+var seqCheck = &core.Check{Name: "c06/sequence", Quick: 40000, Thorough: 4000000, Hang: caseHang, Fn: func(c *core.Ctx) error {
 	useCell := c.Bool("cell")
 	capacity := 1023
 	var tg target
@@ -716,7 +716,7 @@ func init() {
 }
 
 // tape: string index, offset, width
-var gridCheck = &core.Check{Name: "c06/readgrid", Fn: func(c *core.Ctx) error {
+var gridCheck = &core.Check{Name: "c06/readgrid", Hang: caseHang, Fn: func(c *core.Ctx) error {
 	si, off, n := c.Intn("s", 3), c.Intn("off", 1024), c.Intn("width", 65)
 	model := fixedBits[si]
 	c.Note("string", si)
@@ -776,7 +776,7 @@ var gridCheck = &core.Check{Name: "c06/readgrid", Fn: func(c *core.Ctx) error {
 }}
 
 // tape: string index, offset, width (1..257)
-var bigGridCheck = &core.Check{Name: "c06/biggrid", Fn: func(c *core.Ctx) error {
+var bigGridCheck = &core.Check{Name: "c06/biggrid", Hang: caseHang, Fn: func(c *core.Ctx) error {
 	si, off, n := c.Intn("s", 3), c.Intn("off", 1024), c.Intn("width", 258)
 	model := fixedBits[si]
 	c.Note("string", si)
@@ -822,7 +822,7 @@ var bigGridCheck = &core.Check{Name: "c06/biggrid", Fn: func(c *core.Ctx) error 
 }}
 
 // tape: length, kind(0 = pseudo-random from length, 1 = exact value), value
-var hexCheck = &core.Check{Name: "c06/fifthex", Quick: 4000, Thorough: 400000, Fn: func(c *core.Ctx) error {
+var hexCheck = &core.Check{Name: "c06/fifthex", Quick: 4000, Thorough: 400000, Hang: caseHang, Fn: func(c *core.Ctx) error {
 	n := c.Range("len", 0, 1023)
 	var bits ref.Bits
 	if c.Intn("kind", 2) == 1 && n <= 10 {
